@@ -4,6 +4,7 @@
 #![allow(unused_imports, dead_code, unused_variables, unused_mut)]
 use vstd::prelude::*;
 use std::slice::Iter;
+use vstd::string::StringSliceAdditionalSpecFns;
 
 verus! {
 
@@ -20,6 +21,186 @@ pub fn shim_u32_to_le_bytes(x: u32) -> (r: [u8; 4])
 {
     x.to_le_bytes()
 }
+
+// ------------------------------------------------------------------ strings as byte sequences (ASSUMED, uninterpreted)
+pub open spec fn str_bytes(s: &str) -> Seq<u8> { s.spec_bytes() }   // vstd: str::as_bytes(s)@ == s.spec_bytes()
+
+// vstd: str::len(s) == s.spec_bytes().len() as usize; ASSUMED: a string's byte length fits in usize
+pub mod axioms {
+    use vstd::prelude::*;
+    use vstd::string::StringSliceAdditionalSpecFns;
+    #[verifier::external_body]
+    pub broadcast proof fn axiom_str_len_fits(s: &str)
+        ensures #[trigger] s.spec_bytes().len() <= usize::MAX,
+    {
+    }
+}
+broadcast use axioms::axiom_str_len_fits;
+
+// ------------------------------------------------------------------ iterator shims (R2), ASSUMED
+pub uninterp spec fn remaining<I: Iterator>(it: &I) -> Seq<I::Item>;
+pub uninterp spec fn into_remaining<I: IntoIterator>(it: &I) -> Seq<I::Item>;
+
+#[verifier::external_body]
+pub fn shim_into_iter<I: IntoIterator>(i: I) -> (r: I::IntoIter)
+    ensures remaining(&r) == into_remaining(&i),
+{
+    i.into_iter()
+}
+
+#[verifier::external_body]
+pub fn shim_next<I: Iterator>(it: &mut I) -> (r: Option<I::Item>)
+    ensures
+        match r {
+            Some(x) => remaining(old(it)).len() > 0 && x == remaining(old(it))[0] && remaining(final(it)) == remaining(old(it)).skip(1),
+            None => remaining(old(it)).len() == 0 && remaining(final(it)) == remaining(old(it)),
+        },
+{
+    it.next()
+}
+
+// ------------------------------------------------------------------ dependency stubs (ASSUMED specs)
+#[verifier::external_body]
+pub struct Label { _p: [u8; 0] }
+impl Label {
+    pub uninterp spec fn key_bytes(&self) -> Seq<u8>;
+    pub uninterp spec fn value_bytes(&self) -> Seq<u8>;
+    #[verifier::external_body]
+    pub fn key(&self) -> (r: &str) ensures str_bytes(r) == self.key_bytes() { unimplemented!() }
+    #[verifier::external_body]
+    pub fn value(&self) -> (r: &str) ensures str_bytes(r) == self.value_bytes() { unimplemented!() }
+}
+
+#[verifier::external_body]
+pub struct Key { _p: [u8; 0] }
+impl Key {
+    pub uninterp spec fn name_bytes(&self) -> Seq<u8>;
+    pub uninterp spec fn label_seq(&self) -> Seq<&Label>;
+    #[verifier::external_body]
+    pub fn name(&self) -> (r: &str) ensures str_bytes(r) == self.name_bytes() { unimplemented!() }
+    #[verifier::external_body]
+    pub fn labels(&self) -> (r: Iter<'_, Label>) ensures into_remaining(&r) == self.label_seq() { unimplemented!() }
+}
+
+pub uninterp spec fn itoa_bytes(v: u64) -> Seq<u8>;
+pub uninterp spec fn ryu_bytes(v: f64) -> Seq<u8>;
+
+pub mod itoa {
+    use super::*;
+    #[verifier::external_body]
+    pub struct Buffer { _p: [u8; 0] }
+    impl Buffer {
+        #[verifier::external_body]
+        pub fn new() -> Buffer { unimplemented!() }
+        // ASSUMED: decimal rendering of a u64 is 1..=20 bytes
+        #[verifier::external_body]
+        pub fn format(&mut self, v: u64) -> (r: &str)
+            ensures str_bytes(r) == itoa_bytes(v), 1 <= itoa_bytes(v).len() <= 20,
+        { unimplemented!() }
+    }
+}
+pub mod ryu {
+    use super::*;
+    #[verifier::external_body]
+    pub struct Buffer { _p: [u8; 0] }
+    impl Buffer {
+        #[verifier::external_body]
+        pub fn new() -> Buffer { unimplemented!() }
+        // ASSUMED: shortest round-trip rendering of an f64 is 1..=24 bytes
+        #[verifier::external_body]
+        pub fn format(&mut self, v: f64) -> (r: &str)
+            ensures str_bytes(r) == ryu_bytes(v), 1 <= ryu_bytes(v).len() <= 24,
+        { unimplemented!() }
+    }
+}
+
+#[verifier::reject_recursive_types(A)]
+#[verifier::reject_recursive_types(B)]
+#[verifier::external_type_specification]
+#[verifier::external_body]
+pub struct ExChain<A, B>(std::iter::Chain<A, B>);
+
+// R2c: `A.chain(B)` -> `shim_chain(A, B)` (Iterator::chain is a provided trait method: no assume_specification possible)
+#[verifier::external_body]
+pub fn shim_chain<'a>(a: Iter<'a, Label>, b: Iter<'a, Label>) -> (r: std::iter::Chain<Iter<'a, Label>, Iter<'a, Label>>)
+    ensures into_remaining(&r) == into_remaining(&a) + into_remaining(&b),
+{
+    a.chain(b)
+}
+
+// ------------------------------------------------------------------ wire format (specification)
+pub open spec fn lit2(a: u8, b: u8) -> Seq<u8> { seq![a, b] }
+
+pub open spec fn tag_bytes(l: &Label) -> Seq<u8> {
+    l.key_bytes() + (if l.value_bytes().len() == 0 { Seq::<u8>::empty() } else { seq![58u8] + l.value_bytes() })
+}
+
+/// `|#t0,t1,...` (nothing when there are no tags)
+pub open spec fn tags_bytes(tags: Seq<&Label>) -> Seq<u8>
+    decreases tags.len(),
+{
+    if tags.len() == 0 {
+        Seq::<u8>::empty()
+    } else if tags.len() == 1 {
+        lit2(124, 35) + tag_bytes(tags[0])
+    } else {
+        tags_bytes(tags.drop_last()) + seq![44u8] + tag_bytes(tags.last())
+    }
+}
+
+pub open spec fn rate_bytes(r: Option<f64>) -> Seq<u8> {
+    match r { Some(x) => lit2(124, 64) + ryu_bytes(x), None => Seq::<u8>::empty() }
+}
+
+pub open spec fn ts_bytes(t: Option<u64>) -> Seq<u8> {
+    match t { Some(x) => lit2(124, 84) + itoa_bytes(x), None => Seq::<u8>::empty() }
+}
+
+/// everything after `|<type>`: sample rate, tags (global first, then the metric's own), timestamp, LF
+pub open spec fn trailer_bytes(rate: Option<f64>, tags: Seq<&Label>, ts: Option<u64>) -> Seq<u8> {
+    rate_bytes(rate) + tags_bytes(tags) + ts_bytes(ts) + seq![10u8]
+}
+
+pub open spec fn prefix_bytes(p: Option<&str>) -> Seq<u8> {
+    match p { Some(x) => str_bytes(x) + seq![46u8], None => Seq::<u8>::empty() }
+}
+
+//@ITEM file=metrics-exporter-dogstatsd/src/writer.rs sel=fn write_metric_trailer
+//@REWRITE R2c global_labels.chain(tags) ==> shim_chain(global_labels, tags)
+//@FORLOOP 1 it
+//@SPEC
+    ensures
+        final(buf)@ == old(buf)@ + trailer_bytes(maybe_sample_rate, into_remaining(&global_labels) + key.label_seq(), maybe_timestamp),
+//@BEFORE 1 let tags = key.labels();
+    let ghost all_tags = into_remaining(&global_labels) + key.label_seq();
+    let ghost b0 = old(buf)@ + rate_bytes(maybe_sample_rate);
+    assert(buf@ == b0);
+//@LOOP 1
+        invariant
+            remaining(&it).len() <= all_tags.len(),
+            remaining(&it) == all_tags.skip(all_tags.len() - remaining(&it).len()),
+            wrote_tag == (remaining(&it).len() < all_tags.len()),
+            buf@ == b0 + tags_bytes(all_tags.take(all_tags.len() - remaining(&it).len())),
+        ensures remaining(&it).len() == 0,
+        decreases remaining(&it).len(),
+//@BEFORE 1 if wrote_tag {
+        let ghost done = all_tags.len() - remaining(&it).len() - 1;
+        proof {
+            assert(tag == all_tags[done]);
+            assert(all_tags.take(done + 1).drop_last() == all_tags.take(done));
+            assert(all_tags.take(done + 1).last() == tag);
+            if done == 0 { assert(all_tags.take(0).len() == 0); }
+        }
+//@BEFORE 1 if let Some(timestamp) = maybe_timestamp {
+    proof { assert(all_tags.take(all_tags.len() as int) == all_tags); }
+    let ghost b1 = buf@;
+//@AFTER 1 buf.push(b'\n');
+    proof {
+        assert(buf@ == b1 + ts_bytes(maybe_timestamp) + seq![10u8]);
+        assert(b1 == b0 + tags_bytes(all_tags));
+        assert(buf@ =~= old(buf)@ + (rate_bytes(maybe_sample_rate) + tags_bytes(all_tags) + ts_bytes(maybe_timestamp) + seq![10u8]));
+    }
+//@END
 
 // R7: `V[A..B].copy_from_slice(S)` -> `shim_copy_into(&mut V, A, B, S)`: vstd gives the range IndexMut of Vec no usable
 // specification (the borrowed sub-slice is havocked); the shim's body is the same expression.
